@@ -127,6 +127,9 @@ func shapeOf(p []byte) pktShape {
 
 // inProcessSafe: cheap and conservative. Array descriptors multiply: count × element size × (slice length <= len(p)).
 func (s pktShape) inProcessSafe(n int) bool {
+	if s.nest > 16 {
+		return false // deep nesting: quadratic allocation (listed), observed in the child
+	}
 	if s.arrMax > 64 || s.arrProd > 4096 || (s.arrProd > 1 && s.arrProd*uint64(n) > 65536) {
 		return false
 	}
@@ -1402,6 +1405,8 @@ func c16Round(c *Ctx, pre []string, pkts []*c16Pkt, disagree func(string, string
 		byArrays := sh.arrProd > 1 && (k.status == "died" || k.status == "timeout" || sh.arrProd*2048 >= k.alloc/2)
 		byRegCount := sh.regCnt > uint64(len(k.p)) && (k.status == "died" || k.status == "timeout" || sh.regCnt*64 >= k.alloc/2)
 		byNesting := sh.nest >= 256
+		// nested slices whose counts each pass the "count <= remaining bytes" check: MakeSlice per level (listed)
+		byNestedData := sh.nest > 16 && k.asked && k.mAlloc > int64(allocBound(len(k.p))) && uint64(k.mAlloc)*4 >= k.alloc
 		class := k.status
 		if k.status == "err" && looksLikePanic(fmt.Errorf("%s", k.errStr)) {
 			class = "panic-recovered"
@@ -1454,6 +1459,8 @@ func c16Round(c *Ctx, pre []string, pkts []*c16Pkt, disagree func(string, string
 				violation("C16/edf-alloc-array", what+"; array descriptors declare "+strconv.FormatUint(sh.arrProd, 10)+" elements", k)
 			case byRegCount:
 				violation("C16/edf-alloc-regmap", what+"; 4-byte count behind edtReg "+strconv.FormatUint(sh.regCnt, 10), k)
+			case byNestedData:
+				violation("C16/edf-alloc-nested", fmt.Sprintf("%s; %d nested slice levels each allocate their declared count (model: %d bytes)", what, sh.nest, k.mAlloc), k)
 			case byNesting:
 				violation("C16/edf-alloc-nested-descriptor", fmt.Sprintf("%s; the descriptor nests %d composite types (reflect builds a type, and its name, per level)", what, sh.nest), k)
 			default:
@@ -1570,6 +1577,7 @@ func c16Witnesses(c *Ctx, cfgs []*edfCfg, pre []string, disagree func(string, st
 		{0x82, 0x00, 0x0b, 0x9e, 0xff, 0xff, 0xff, 0xff, 0x9e, 0x00, 0x00, 0x00, 0x00, 0x94, 0x00},
 		desc(cat(bytes.Repeat([]byte{0x9d}, 8000), []byte{0x96}), []byte{0xff}),
 		cat(regName(tNMapSI), []byte{0x83, 0xff, 0xff, 0xff, 0xff}),
+		c16NestedSlices(1000),
 	}
 	wr := make([]*c16Pkt, len(wp))
 	var wg sync.WaitGroup
@@ -1655,6 +1663,24 @@ func c16Witnesses(c *Ctx, cfgs []*edfCfg, pre []string, disagree func(string, st
 	} else {
 		r.Note("C16 witness (nested descriptor) does not reproduce: %s, %d bytes", k.status, k.alloc)
 	}
+	// nested unnamed slices: every level passes the count check and allocates count × 24 bytes: quadratic
+	p = c16NestedSlices(1000)
+	k = one(p, 20*time.Second)
+	ma = modelAlloc(p)
+	if k.status == "died" || k.status == "timeout" || k.alloc > allocBound(len(p)) {
+		r.Violation("C16/edf-alloc-nested", fmt.Sprintf("%d-byte packet, 1000 nested slice levels whose counts equal the bytes that remain: child %s, allocated %d bytes (bound %d, model: %d)", len(p), k.status, k.alloc, allocBound(len(p)), ma),
+			map[string]interface{}{"config": "off", "hex_rle": "82 03e9 9d*1000 97, then 1000 headers 9d be32(bytes remaining after the header, at least 1)", "depth": 1000})
+		if k.status != "died" && k.status != "timeout" && ma >= 0 && k.alloc < uint64(ma)/2 {
+			disagree("K1 Edf.alloc ~ edf.Decode allocation", fmt.Sprintf("nested-slices witness: model predicts %d, implementation allocated %d", ma, k.alloc), k)
+		} else {
+			r.Count("c16.agree.alloc-witness")
+		}
+	} else {
+		r.Note("C16 known-finding witness (nested slices) no longer reproduces: %s, %d bytes (model %d)", k.status, k.alloc, ma)
+		if ma > 4*int64(allocBound(len(p))) {
+			disagree("K1 Edf.alloc ~ edf.Decode allocation", fmt.Sprintf("nested-slices witness: model predicts %d, implementation allocated %d", ma, k.alloc), k)
+		}
+	}
 	// registered map: MakeMapWithSize before the count check
 	p = cat(regName(tNMapSI), []byte{0x83, 0xff, 0xff, 0xff, 0xff})
 	k = one(p, 20*time.Second)
@@ -1663,6 +1689,21 @@ func c16Witnesses(c *Ctx, cfgs []*edfCfg, pre []string, disagree func(string, st
 	} else {
 		r.Note("C16 known-finding witness (registered map count) no longer reproduces: %s, %d bytes", k.status, k.alloc)
 	}
+}
+
+// c16NestedSlices: [][]...[]uint8 of depth d; every level's count is the number of bytes that remain
+func c16NestedSlices(d int) []byte {
+	fold := append(bytes.Repeat([]byte{0x9d}, d), 0x97)
+	p := cat([]byte{0x82}, be16b(len(fold)), fold)
+	total := len(p) + 5*d
+	for i := 0; i < d; i++ {
+		rem := total - len(p) - 5
+		if rem < 1 {
+			rem = 1
+		}
+		p = append(p, cat([]byte{0x9d}, be32b(uint32(rem)))...)
+	}
+	return p
 }
 
 var _ = io.EOF
